@@ -218,7 +218,8 @@ impl<'a> Sess<'a> {
         if p.ty == 7 && flags_extra & 0x18 == 0x18 {
             let len = 90 + (flags_extra & 0x07) as usize * 4 + (ps as usize % 4);
             while rec.bytes.len() < len {
-                rec.bytes.push((rec.bytes.len() as u8).wrapping_mul(7) ^ (ps as u8));
+                rec.bytes
+                    .push((rec.bytes.len() as u8).wrapping_mul(7) ^ (ps as u8));
             }
             label(&mut self.f, "long_octet_string_event");
         }
